@@ -4,12 +4,16 @@
        data state, ancilla state absent / all ONE, 0..6 cycles, the model exporter (C08) applied to the model circuit (Core)
        of the model constructor (LibBuild) returns, and equals C09's closed form `rep_stim` up to `skeleton` (the rec[..]
        targets of DETECTOR / OBSERVABLE_INCLUDE) -- as constructed and after apply_modifiers.  Evaluated once by the VM.
-   C.  see the end of the file. *)
+   R.  record_of_skeleton: a REPEAT-free program with the skeleton of rep_stim, executed (C09's semantics) without its
+       annotations, yields the protocol's measurement record (C09_chain_record / C09_layout_record carried over); hence so
+       does the export of the model circuit on the bounded domain (chain_export_record_bounded).
+   C.  every cycle count: LibBuild/StimBridgeCycles.v (chains of distance 2, 3), StimBridgeLayouts.v (shipped layouts). *)
 From Coq Require Import ZArith List Bool String Lia.
 Import ListNotations.
-From QCE Require Import Base.Prelude Core.Model Core.Run C08.Tree C08.Model Bridge.TreeOfOp C09.Stim C09.Model
-                        LibBuild.Model LibBuild.Cert LibBuild.StimBridge.
+From QCE Require Import Base.Prelude Core.Model Core.Run C08.Tree C08.Model Bridge.TreeOfOp C09.Stim C09.Spec C09.Sem C09.Model
+                        C09.Proofs LibBuild.Model LibBuild.Cert LibBuild.StimBridge.
 From Gen Require Import Ident Classes Tables.
+Open Scope list_scope.
 Open Scope Z_scope.
 
 (* ------------------------------------------------------------------ prog_eqb is equality *)
@@ -47,10 +51,10 @@ Proof. apply leqb9_eq. apply Forall_forall. intros x _ y. apply Z.eqb_eq. Qed.
 Lemma gate1_eqb_eq a b : gate1_eqb a b = true -> a = b.
 Proof. destruct a, b; simpl; intros H; try discriminate; reflexivity. Qed.
 
-Lemma instr_eqb_eq a : forall b, instr_eqb a b = true -> a = b.
+Lemma instr_eqb_eq : forall a b, instr_eqb a b = true -> a = b.
 Proof.
-  induction a as [i | n body IH] using instr_ind'.
-  - destruct i; try exact I; intros b H; destruct b; simpl in H; try discriminate;
+  apply (instr_ind' (fun a => forall b, instr_eqb a b = true -> a = b)).
+  - intros i. destruct i; try exact I; intros j H; destruct j; simpl in H; try discriminate;
       repeat match goal with
              | H : _ && _ = true |- _ => apply andb_true_iff in H as [? ?]
              | H : gate1_eqb _ _ = true |- _ => apply gate1_eqb_eq in H
@@ -58,7 +62,7 @@ Proof.
              | H : C09.Stim.leqb Z.eqb _ _ = true |- _ => apply zs_eqb_eq in H
              | H : String.eqb _ _ = true |- _ => apply String.eqb_eq in H
              end; subst; reflexivity.
-  - intros b H. destruct b; simpl in H; try discriminate. apply andb_true_iff in H as [H1 H2].
+  - intros n body IH j H. destruct j; simpl in H; try discriminate. apply andb_true_iff in H as [H1 H2].
     apply Z.eqb_eq in H1. subst. f_equal. revert H2. apply leqb9_eq. exact IH.
 Qed.
 
@@ -146,7 +150,7 @@ Lemma or_raised_some o p : o = Some p -> or_raised o = p.
 Proof. intros ->. reflexivity. Qed.
 
 (* as constructed: REPEAT blocks in the export, unrolled by the normal form *)
-Theorem chain_export_bounded d rf init anc cycles : sb_domain d init anc cycles ->
+Lemma chain_export_dom d rf init anc cycles : sb_domain d init anc cycles ->
   let D := desc_of_chain d rf in
   lib_export_opt D init anc cycles = Some (lib_export D init anc cycles)
   /\ skeleton (lib_export D init anc cycles) = skeleton (rep_stim D init anc (Z.to_nat cycles)).
@@ -158,7 +162,7 @@ Proof.
 Qed.
 
 (* after apply_modifiers: no REPEAT in the export *)
-Theorem chain_export_unrolled_bounded d rf init anc cycles : sb_domain d init anc cycles ->
+Lemma chain_export_unrolled_dom d rf init anc cycles : sb_domain d init anc cycles ->
   let D := desc_of_chain d rf in
   lib_export_unrolled_opt D init anc cycles = Some (lib_export_unrolled D init anc cycles)
   /\ skeleton (lib_export_unrolled D init anc cycles) = skeleton (rep_stim D init anc (Z.to_nat cycles)).
@@ -169,28 +173,134 @@ Proof.
   unfold lib_export_unrolled. rewrite E. cbn [or_raised]. split; [reflexivity | exact S].
 Qed.
 
-(* hence: the two exports of the model circuit have the same skeleton, and the same gates in the same order *)
-Corollary chain_export_plain_vs_unrolled d rf init anc cycles : sb_domain d init anc cycles ->
-  let D := desc_of_chain d rf in
-  skeleton (lib_export D init anc cycles) = skeleton (lib_export_unrolled D init anc cycles).
+(* the statements with the bound written out *)
+Theorem chain_export_bounded : forall d rf init anc cycles,
+  In d [2; 3; 4]%nat -> List.length init = d -> anc = [] \/ anc = repeat true (d - 1) -> 0 <= cycles <= 6 ->
+  lib_export_opt (desc_of_chain d rf) init anc cycles = Some (lib_export (desc_of_chain d rf) init anc cycles)
+  /\ skeleton (lib_export (desc_of_chain d rf) init anc cycles)
+     = skeleton (rep_stim (desc_of_chain d rf) init anc (Z.to_nat cycles)).
+Proof. intros d rf init anc cycles H1 H2 H3 H4. apply (chain_export_dom d rf init anc cycles). repeat split; tauto. Qed.
+
+Theorem chain_export_unrolled_bounded : forall d rf init anc cycles,
+  In d [2; 3; 4]%nat -> List.length init = d -> anc = [] \/ anc = repeat true (d - 1) -> 0 <= cycles <= 6 ->
+  lib_export_unrolled_opt (desc_of_chain d rf) init anc cycles = Some (lib_export_unrolled (desc_of_chain d rf) init anc cycles)
+  /\ skeleton (lib_export_unrolled (desc_of_chain d rf) init anc cycles)
+     = skeleton (rep_stim (desc_of_chain d rf) init anc (Z.to_nat cycles)).
+Proof. intros d rf init anc cycles H1 H2 H3 H4. apply (chain_export_unrolled_dom d rf init anc cycles). repeat split; tauto. Qed.
+
+(* hence: the two exports of the model circuit have the same skeleton, and the gates / resets / measurements / ticks of the
+   export are those of rep_stim, in order *)
+Theorem chain_export_plain_vs_unrolled : forall d rf init anc cycles,
+  In d [2; 3; 4]%nat -> List.length init = d -> anc = [] \/ anc = repeat true (d - 1) -> 0 <= cycles <= 6 ->
+  skeleton (lib_export (desc_of_chain d rf) init anc cycles) = skeleton (lib_export_unrolled (desc_of_chain d rf) init anc cycles).
 Proof.
-  intros Hdom D. destruct (chain_export_bounded d rf init anc cycles Hdom) as [_ A].
-  destruct (chain_export_unrolled_bounded d rf init anc cycles Hdom) as [_ B]. fold D in A, B. now rewrite A, B.
+  intros d rf init anc cycles H1 H2 H3 H4.
+  destruct (chain_export_bounded d rf init anc cycles H1 H2 H3 H4) as [_ A].
+  destruct (chain_export_unrolled_bounded d rf init anc cycles H1 H2 H3 H4) as [_ B]. now rewrite A, B.
 Qed.
 
-Corollary chain_export_gates d rf init anc cycles : sb_domain d init anc cycles ->
-  let D := desc_of_chain d rf in
-  gate_part (lib_export D init anc cycles) = gate_part (rep_stim D init anc (Z.to_nat cycles)).
-Proof. intros Hdom D. apply skeleton_gate_part. apply (chain_export_bounded d rf init anc cycles Hdom). Qed.
+Theorem chain_export_gates : forall d rf init anc cycles,
+  In d [2; 3; 4]%nat -> List.length init = d -> anc = [] \/ anc = repeat true (d - 1) -> 0 <= cycles <= 6 ->
+  gate_part (lib_export (desc_of_chain d rf) init anc cycles) = gate_part (rep_stim (desc_of_chain d rf) init anc (Z.to_nat cycles)).
+Proof.
+  intros d rf init anc cycles H1 H2 H3 H4. apply skeleton_gate_part.
+  apply (chain_export_bounded d rf init anc cycles H1 H2 H3 H4).
+Qed.
+
+(* ------------------------------------------------------------------ R. the record is decided by the gate part *)
+Definition sb_strip (m : mstate) : mstate := MkM (m_st m) (m_rec m) [] [].
+Definition instr_plain (i : instr) : bool := match i with IRepeat _ _ => false | _ => true end.
+Definition no_repeat (p : list instr) : bool := forallb instr_plain p.
+
+Lemma no_repeat_app a b : no_repeat (a ++ b) = no_repeat a && no_repeat b.
+Proof. apply forallb_app. Qed.
+
+(* DETECTOR / OBSERVABLE_INCLUDE only read the record: dropping them changes neither the qubits nor the record *)
+Lemma run_gate_part p : no_repeat p = true -> forall m m', run p m = Ok m' -> run (gate_part p) (sb_strip m) = Ok (sb_strip m').
+Proof.
+  induction p as [|i p IH]; intros NR m m' H.
+  - injection H as <-. reflexivity.
+  - cbn [no_repeat forallb] in NR. apply andb_true_iff in NR as [Ni NR]. unfold run in *. cbn [rfold] in H.
+    destruct (step i m) as [m1| |] eqn:E; try discriminate.
+    specialize (IH NR m1 m' H).
+    destruct i; try discriminate Ni; cbn [gate_part filter is_annotation negb rfold].
+    all: try (cbn [step] in E |- *; cbn [sb_strip m_st m_rec m_det m_obs] in * ).
+    all: try (injection E as <-; exact IH).
+    + (* ICZ *) destruct (a =? b); [discriminate|]. destruct (m_st m a), (m_st m b); try discriminate; injection E as <-; exact IH.
+    + (* IM *) destruct (m_st m q); [|discriminate]. injection E as <-. exact IH.
+    + (* IDet *) destruct (parity_at (m_rec m) recs); [|discriminate]. injection E as <-. exact IH.
+    + (* IObs *) destruct (parity_at (m_rec m) recs); [|discriminate]. destruct (k <? 0); [discriminate|]. injection E as <-. exact IH.
+    + (* IOther *) discriminate.
+Qed.
+
+Lemma exec_gate_part p r ds os : no_repeat p = true -> exec p = Some (r, ds, os) -> exec (gate_part p) = Some (r, [], []).
+Proof.
+  intros NR H. unfold exec in *. destruct (run p start) as [m| |] eqn:E; try discriminate.
+  injection H as <- _ _. change start with (sb_strip start). rewrite (run_gate_part p NR start m E). reflexivity.
+Qed.
+
+(* rep_stim is REPEAT-free, for every description *)
+Lemma no_repeat_map {A} (f : A -> instr) l : (forall x, instr_plain (f x) = true) -> no_repeat (map f l) = true.
+Proof. intros H. unfold no_repeat. rewrite forallb_forall. intros i Hi. apply in_map_iff in Hi as (x & <- & _). apply H. Qed.
+Lemma no_repeat_flat_map {A} (f : A -> list instr) l : (forall x, no_repeat (f x) = true) -> no_repeat (flat_map f l) = true.
+Proof. intros H. induction l as [|x l IH]; [reflexivity|]. cbn [flat_map]. now rewrite no_repeat_app, H, IH. Qed.
+Lemma no_repeat_tick b : no_repeat (tick_if b) = true.
+Proof. destruct b; reflexivity. Qed.
+
+Lemma no_repeat_layers anc ls : forall cur, no_repeat (layers_instrs anc cur ls) = true.
+Proof.
+  induction ls as [|[gates parks] rest IH]; intros cur; [reflexivity|]. cbn [layers_instrs].
+  rewrite !no_repeat_app, !no_repeat_tick, IH, !no_repeat_map by (intros; reflexivity). reflexivity.
+Qed.
+
+Lemma no_repeat_round D dd : no_repeat (round_instrs D dd) = true.
+Proof.
+  unfold round_instrs. rewrite !no_repeat_app, no_repeat_layers, no_repeat_tick, no_repeat_map by (intros; reflexivity).
+  destruct (dd && r_refocus D); [rewrite no_repeat_map by (intros; reflexivity)|]; reflexivity.
+Qed.
+
+Lemma no_repeat_dets D t back : no_repeat (round_detectors D t back) = true.
+Proof. unfold round_detectors. apply no_repeat_map. intros; reflexivity. Qed.
+
+Lemma no_repeat_rep_stim D init anc c : no_repeat (rep_stim D init anc c) = true.
+Proof.
+  unfold rep_stim. rewrite !no_repeat_app. repeat (apply andb_true_iff; split).
+  - unfold init_part. rewrite !no_repeat_app, !no_repeat_map by (intros; unfold C09.Model.prep; reflexivity). reflexivity.
+  - unfold qec_part. destruct c as [|c]; [apply no_repeat_map; intros; reflexivity|].
+    rewrite !no_repeat_app. repeat (apply andb_true_iff; split).
+    + apply no_repeat_flat_map. intros t. unfold block_first. now rewrite no_repeat_app, no_repeat_round, no_repeat_dets.
+    + apply no_repeat_flat_map. intros t. unfold block_second. now rewrite !no_repeat_app, no_repeat_round, no_repeat_dets.
+    + unfold block_third. now rewrite no_repeat_app, no_repeat_round, no_repeat_dets.
+  - unfold final_part. rewrite !no_repeat_app, !no_repeat_map by (intros; reflexivity). reflexivity.
+Qed.
+
+(* if a program has the skeleton of rep_stim, executing its gates / resets / measurements gives the protocol's record *)
+Lemma record_of_skeleton D init anc cycles p r ds os :
+  exec (rep_stim D init anc cycles) = Some (r, ds, os) ->
+  skeleton p = skeleton (rep_stim D init anc cycles) -> exec (gate_part p) = Some (r, [], []).
+Proof.
+  intros E S. rewrite (skeleton_gate_part _ _ S). exact (exec_gate_part _ _ _ _ (no_repeat_rep_stim D init anc cycles) E).
+Qed.
+
+Theorem chain_export_record_bounded : forall d rf init anc cycles,
+  In d [2; 3; 4]%nat -> List.length init = d -> anc = [] \/ anc = repeat true (d - 1) -> 0 <= cycles <= 6 ->
+  exec (gate_part (lib_export (desc_of_chain d rf) init anc cycles))
+  = Some (protocol_record init anc (Z.to_nat cycles) rf, [], []).
+Proof.
+  intros d rf init anc cycles H1 H2 H3 H4. destruct (chain_export_bounded d rf init anc cycles H1 H2 H3 H4) as [_ S].
+  refine (record_of_skeleton _ init anc _ _ _ _ _ (chain_record d rf init anc (Z.to_nat cycles) _ H2 _) S).
+  - simpl in H1. lia.
+  - destruct H3 as [-> | ->]; [simpl; lia | rewrite repeat_length; lia].
+Qed.
 
 (* ------------------------------------------------------------------ non-vacuity *)
 (* distance 3, refocusing, data 1 0 1, ancillas 1 1, five cycles: the exporter returns a circuit with two REPEAT 2 blocks;
-   91 instructions in normal form, 12 detectors, 3 observable includes, and the skeleton is NOT the whole program *)
+   133 instructions in normal form, 12 detectors, 3 observable includes, and the skeleton is NOT the whole program *)
 Example sb_example :
   sb_domain 3 [true; false; true] [true; true] 5
   /\ (exists c, export_nodes (lib_circuit (desc_of_chain 3 true) [true; false; true] [true; true] 5) = Some c
                 /\ List.length (filter (fun i => match i with SRep 2 _ => true | _ => false end) c) = 2%nat)
-  /\ List.length (lib_export (desc_of_chain 3 true) [true; false; true] [true; true] 5) = 147%nat
+  /\ List.length (lib_export (desc_of_chain 3 true) [true; false; true] [true; true] 5) = 133%nat
   /\ List.length (filter is_annotation (lib_export (desc_of_chain 3 true) [true; false; true] [true; true] 5)) = 15%nat
   /\ raised_free (lib_export (desc_of_chain 3 true) [true; false; true] [true; true] 5) = true
   /\ lib_export (desc_of_chain 3 true) [true; false; true] [true; true] 5
